@@ -21,6 +21,8 @@ import PyTough.Proofs.GeoRigid
 import PyTough.Proofs.GeoEdits
 import PyTough.Proofs.GeoConn
 import PyTough.Proofs.GeoConnDel
+import PyTough.Proofs.GeoColumn
+import PyTough.Proofs.GeoColumnDel
 namespace Props.C10
 open Model.Geo Model.Geo.Geo Py Proofs.Geo
 
@@ -104,8 +106,8 @@ theorem raw_edits_leave_indices_stale :
 
 `add_node`, `delete_node` (of a node no column uses), `add_well`, `delete_well` preserve the whole invariant;
 `add_layer` and `delete_layer` preserve its structural part (what they do not refresh is the known finding
-above).  `add_connection` / `delete_connection` preserve the structural part too.  The corresponding statements for
-`add_column` / `delete_column` are not proved yet: they are covered by the correspondence and the oracle only. -/
+above).  `add_connection` / `delete_connection` / `add_column` / `delete_column` preserve the structural part too: all ten
+primitive edits are covered. -/
 
 theorem add_node_preserves (g : Geo) (name : Name) (pos : Pt) (h : g.geoInv = true) :
     (g.addNode name pos).geoInv = true := addNode_geoInv g name pos h
@@ -137,6 +139,25 @@ theorem add_connection_preserves_structure (g : Geo) (c0 c1 : Nat) (pre : AddCon
 theorem delete_connection_preserves_structure (g g' : Geo) (names : Name × Name)
     (hd : g.deleteConnection names = .ok g') (h : g.geoInv0 = true) : g'.geoInv0 = true :=
   deleteConnection_geoInv0 g g' names hd h
+
+/-- `add_column(column(name, nodes, centre, surface))` with a new name, nodes of the geometry and a
+    non-degenerate polygon, in either orientation (the constructor reverses a clockwise node list: reversing
+    negates the shoelace sum): every node of the column learns about it, nothing else changes -/
+theorem add_column_preserves_structure (g g' : Geo) (name : Name) (nodes : List Nat) (centre : Option Pt)
+    (surface : Option Rat) (nl : Int) (hd : g.addColumn name nodes centre surface nl = .ok g')
+    (hfresh : g.columnD.contains name = false) (hnodes : ∀ n ∈ nodes, n ∈ g.nodelist)
+    (harea : polygonArea (g.polygon nodes) ≠ 0) (h : g.geoInv0 = true) : g'.geoInv0 = true :=
+  addColumn_geoInv0 g g' name nodes centre surface nl hd hfresh hnodes harea h
+
+/-- `delete_column(colname)`, cascade included: the column's connections are deleted one by one (each as in
+    `delete_connection`), after which its neighbour set is empty, its nodes forget it, dictionary and list lose it -/
+theorem delete_column_preserves_structure (g g' : Geo) (name : Name) (hd : g.deleteColumn name = .ok g')
+    (h : g.geoInv0 = true) : g'.geoInv0 = true := deleteColumn_geoInv0 g g' name hd h
+
+-- non-vacuity: delete a column of the strip, then add it back with its nodes listed clockwise
+example : (strip2 >>= fun g => g.deleteColumn (nm 'b') >>= fun g =>
+    g.addColumn (nm 'c') [4, 5, 2, 1] none (some 0) 1).map (fun g => (g.geoInv0, (g.col 2).nodes)) =
+      .ok (true, [1, 2, 5, 4]) := by decide +kernel
 
 -- non-vacuity: on the two-column strip, delete the connection and add it again (in the other direction)
 example : (strip2 >>= fun g => g.deleteConnection (nm 'a', nm 'b')).map
